@@ -196,3 +196,71 @@ Example C05_nonvacuous :
     (RErrFetch, true, (1, 1), [Finished; NoProgress]);
     (RErrOther, false, (0, 0), []) ].
 Proof. split; [repeat split; intros; contradiction | vm_compute; reflexivity]. Qed.
+
+(* ------------------------------------------------------------------ *)
+(* Histories in which the committed filter headers are rewritten (store
+   rolled back and re-written).  A call queued on the single-flight mutex
+   takes its header snapshot after acquiring it, so the sequential history
+   "Call A; XRewrite; Call B" is the exact semantics of that interleaving. *)
+
+(* ALWAYS, whatever was rewritten before: a filter fetched from the network
+   satisfies the relation for the headers committed at the time of the call's
+   snapshot, and so does everything the call adds to the cache. *)
+Theorem C05_snapshot_verified : forall Hf fsize cap persist ops1 c st0 f,
+  let st := xfinal Hf fsize cap persist st0 ops1 in
+  let ob := snd (xstep Hf fsize cap persist st (XBase (Call c))) in
+  o_res ob = RFilter f -> o_queried ob = true ->
+  verified Hf (hdrs st) (c_blk c) f = true /\
+  forall e, In e (cache (base (fst (xstep Hf fsize cap persist st (XBase (Call c)))))) ->
+            In e (cache (base st)) \/ verified Hf (hdrs st) (ekey e) (eval e) = true.
+Proof. exact snapshot_verified. Qed.
+Print Assumptions C05_snapshot_verified.
+
+(* REFUTED for the real code (root cause 1: nothing invalidates FilterCache /
+   FilterDB entries when filter headers are rewritten): after a rewrite, a
+   filter verified against the old headers is still returned from the cache
+   although it does not satisfy the relation for the committed headers. *)
+Definition ex_fh2 (h : Z) : Z := if h <? 0 then 0 else 200 + h.
+Theorem C05_stale_entry_refuted :
+  exists (ops : list xop) (c : call) (f : Z),
+    let st0 := {| base := {| cache := []; db := []; dbq := [] |}; hdrs := ex_fh; xbest := 5; stale := false |} in
+    let st := xfinal ex_Hf (fun _ => 10) 1000 true st0 ops in
+    o_res (snd (xstep ex_Hf (fun _ => 10) 1000 true st (XBase (Call c)))) = RFilter f /\
+    verified ex_Hf (hdrs st) (c_blk c) f = false /\ stale st = true.
+Proof.
+  exists [ XBase (Call {| c_blk := 2; c_known := true; c_ftype_ok := true; c_batch := 0; c_maxbatch := 0;
+                          c_resps := [ex_r 2 101]; c_verdict := VOk |});
+           XRewrite 5 ex_fh2 ],
+         {| c_blk := 2; c_known := true; c_ftype_ok := true; c_batch := 0; c_maxbatch := 0;
+            c_resps := []; c_verdict := VErr |}, 101.
+  vm_compute. repeat split.
+Qed.
+Print Assumptions C05_stale_entry_refuted.
+
+(* UNLESS: in every history with rewrites, as long as the ghost flag is clear
+   (no rewrite has invalidated an entry of cache, database or queue), every
+   filter returned — network, cache or database — and every filter visible in
+   cache and database satisfies the relation for the headers committed NOW. *)
+Theorem C05_every_history_unless : forall Hf fsize cap persist ops1 o st0,
+  xinv Hf st0 ->
+  let st := xfinal Hf fsize cap persist st0 ops1 in
+  stale (fst (xstep Hf fsize cap persist st o)) = false ->
+  let fh' := hdrs (fst (xstep Hf fsize cap persist st o)) in
+  let ob := snd (xstep Hf fsize cap persist st o) in
+  (forall c f, o = XBase (Call c) -> o_res ob = RFilter f -> verified Hf fh' (c_blk c) f = true) /\
+  (forall b f, In (b, f) (o_cache ob) -> verified Hf fh' b f = true) /\
+  (forall b f, In (b, f) (o_db ob) -> verified Hf fh' b f = true).
+Proof. exact every_history_unless. Qed.
+Print Assumptions C05_every_history_unless.
+
+(* The monitors of the correspondence run accept every model trace with
+   rewrites: the core monitor (old entries exempt) always, the strict one
+   whenever the ghost flag is clear at the end of the history. *)
+Theorem C05_model_holds_rewrites : forall Hf fsize cap persist strict ops st sv i,
+  0 <= xbest st < two32 -> xops_wf ops ->
+  (strict = true -> stale (xfinal Hf fsize cap persist st ops) = false) -> xinv Hf st ->
+  (forall p, In p (dbq (base st)) -> In p sv) ->
+  xfirst_bad Hf strict (hdrs st) (xbest st) i (cache_view (cache (base st))) (db (base st)) sv
+    (combine ops (xrun Hf fsize cap persist st ops)) = None.
+Proof. exact xfirst_bad_model. Qed.
+Print Assumptions C05_model_holds_rewrites.
